@@ -20,7 +20,7 @@ ACCOUNTS = ["default", "0", "5", "2^31-2", "2^31-1", "2^31", "-1", "x", "+5", " 
 BOUNDS = ["-1", "0", "1", "3", "2^31-1", "2^31", "2^31+1", "2^32-2", "2^32-1", "x"]
 FILES = ["none", "absent", "existing", "dir", "symlink-to-file", "dangling-symlink", "parent-missing", "empty-string",
          "symlink-rel-in-subdir", "symlink-up", "symlink-abs-to-file", "symlink-to-dir", "existing-dotdot", "absent-in-subdir",
-         "absent-trailing-slash", "symlink-loop", "dangling-into-missing-dir", "absent-no-extension"]
+         "absent-trailing-slash", "symlink-loop", "dangling-into-missing-dir", "absent-no-extension", "existing-empty"]
 PWS = ["none", "ascii", "nfkd-sensitive", "blank-padded", "empty", "json-like", "at-existing-file"]
 
 
